@@ -105,6 +105,7 @@ class Check:
     self.flags = {}
     self.lines = []                # VIOLATION / KNOWN-FINDING lines printed
     self.coverage_extra = {}
+    self.replay_obj = None
     self.known = [e for e in load_known_findings() if e['property'] == pid and e.get('status') == 'known']
     tp = os.path.join(LEAN_DIR, 'theorems', pid + '.json')
     self.theorems = json.load(open(tp)) if os.path.exists(tp) else {}
@@ -192,6 +193,20 @@ class Check:
     """Send JSON requests (one per line) to `lake env lean --run Drivers/<driver>.lean`."""
     if not requests:
       return []
+    # a driver interpreted against stale .olean files of its imports can crash: build them first
+    built = getattr(self, '_drivers_built', set())
+    if driver not in built:
+      dp = os.path.join(LEAN_DIR, 'Drivers', driver + '.lean')
+      try:
+        imps = re.findall(r'^\s*import\s+(VizierModel[\w.]*)', strip_lean_comments(open(dp).read()), re.M)
+      except OSError:
+        raise InfraError('no driver ' + dp)
+      if imps:
+        rc, out, err = _run(['lake', 'build'] + imps, cwd=LEAN_DIR, timeout=3000)
+        if rc != 0:
+          raise InfraError('cannot build the imports of driver %s: %s' % (driver, (out + err)[-800:]))
+      built.add(driver)
+      self._drivers_built = built
     inp = ''.join(json.dumps(r, separators=(',', ':'), ensure_ascii=True) + '\n' for r in requests)
     rc, out, err = _run(['lake', 'env', 'lean', '--run', 'Drivers/%s.lean' % driver],
                         cwd=LEAN_DIR, input=inp, timeout=timeout)
@@ -335,6 +350,22 @@ def main(run):
   a = ap.parse_args()
   c = Check(a.pid, a.tier, a.seed)
   c.replay_path = a.replay
+  if a.replay:
+    # Replay: show what the replay file holds, then re-run the check; every check replays its
+    # witnesses / corpus first and judges the real code again, so a violation that still exists is
+    # reported again (with the same key), and one that is gone is not.
+    try:
+      obj = json.load(open(a.replay if os.path.isabs(a.replay) else os.path.join(VERIF, a.replay)))
+      print('REPLAY kind=%s key=%s' % (obj.get('kind'), obj.get('key')))
+      print('REPLAY what=%s' % (obj.get('what') or obj.get('broken_theorems') or '')[:500] if isinstance(obj.get('what') or '', str) else '')
+      c.replay_obj = obj
+      if obj.get('seed') is not None:
+        c.seed = int(obj['seed'])
+        c.rng = random.Random(c.seed * 1000003 + int(a.pid[1:]))
+      if obj.get('tier') in ('quick', 'thorough') and not a.tier:
+        c.tier = obj['tier']
+    except (OSError, ValueError) as e:
+      raise InfraError('cannot read replay file: %s' % e)
   try:
     code = run(c)
   except InfraError as e:
